@@ -260,6 +260,7 @@ func c01Drain(c *mon.Ctx, caseID string, w *world.World, extra map[string]any) b
 }
 
 func runC01(c *mon.Ctx) {
+	c01TwoDatabases(c)
 	r := c.Rng
 	key := world.NewKey(c01Name, 7)
 	evil := world.NewKey("evil.example/sumdb", 9)
@@ -744,5 +745,62 @@ func c01Scenario(c *mon.Ctx, r *rand.Rand, lg *world.Log, key, evil *world.Key, 
 				return hon(cl, p)
 			}
 		}, false)
+	}
+}
+
+// c01TwoDatabases: two honest databases whose names differ only in a trailing slash (or a doubled one),
+// with different keys and different logs, used through one shared cache directory. Each client's files
+// live under its own database name as given; honest servers and an honest cache, so every lookup succeeds.
+func c01TwoDatabases(c *mon.Ctx) {
+	pairs := [][2]string{{"sum.example/db", "sum.example/db/"}, {"sum.example/db", "sum.example//db"}, {"sum.example/a/../db", "sum.example/db"}}
+	item := 0
+	for _, pr := range pairs {
+		for _, h := range []int{1, 2, 8} {
+			for order := 0; order < 2; order++ {
+				mine := c.Mine(item)
+				item++
+				id := fmt.Sprintf("two-databases:%s|%s:h%d:o%d", pr[0], pr[1], h, order)
+				if !mine || !c.Want(id) {
+					continue
+				}
+				c.WAL(id, nil)
+				names := pr
+				if order == 1 {
+					names = [2]string{pr[1], pr[0]}
+				}
+				const n = 9
+				var ws [2]*world.World
+				for i := range ws {
+					key := world.NewKey(names[i], byte(21+i))
+					lg := world.NewLog(fmt.Sprintf("db%d", i), n, 0, key)
+					ws[i] = world.New(names[i], key, lg)
+					ws[i].Remote = ws[i].HonestRemote(n)
+				}
+				ws[1].Cache = ws[0].Cache // one cache directory
+				info := map[string]any{"names": names, "h": h}
+				c.Guard(id, func() any { return info }, func() {
+					for i, w := range ws {
+						cl := sumdb.NewClient(w.Client(i + 1))
+						cl.SetTileHeight(h)
+						w.Register(cl, i+1)
+						for rec := 0; rec < n; rec++ {
+							m := w.Logs[0].Mods[rec]
+							lines, err := cl.Lookup(m.Path, m.Vers)
+							c.Eval(1)
+							if err != nil || len(lines) != 1 {
+								c.Violation("honest-lookup-failed", id, map[string]any{"names": names, "h": h, "database": names[i], "rec": rec, "err": fmt.Sprint(err), "trace_tail": w.TraceTail(12)})
+								return
+							}
+						}
+					}
+					for _, w := range ws {
+						if c01Drain(c, id, w, info) {
+							return
+						}
+					}
+					c.Class("two-databases-one-cache:all-lookups-succeed")
+				})
+			}
+		}
 	}
 }
